@@ -124,7 +124,7 @@ def cases(draw):
         kind = draw(st.sampled_from(RAW_SITES if raw else ESCAPED_SITES))
         cls = draw(st.sampled_from(
             ["str", "str", "str", "bytes", "strsub", "obj", "int", "float",
-             "msg", "html", "intsub", "floatsub"]))
+             "msg", "html", "intsub", "floatsub", "strsub_str"]))
         if kind in ("structure", "structure_replace", "structure_expr",
                     "cdata") and cls in ("msg", "html"):
             cls = "str"
@@ -176,6 +176,8 @@ def value_of(site, harmless=False, index=0):
         return values.StrSub(t), t
     if c == "obj":
         return values.Obj(t), t
+    if c == "strsub_str":
+        return values.StrSubStr("label", t), t
     if c == "int":
         n = 1 if harmless else int(site["num"])
         return n, str(n)
